@@ -39,8 +39,106 @@ fn run_round(exe: &std::path::Path, args: &[&str], env: &[(&str, &str)]) -> Opti
     Some(r)
 }
 
+/// "Evaluation never modifies the expression", all evaluation histories: an expression that has
+/// been evaluated (any number of times) must behave exactly like a never-evaluated copy in every
+/// later operation, including the ones that re-index its variables (arithmetic with neutral
+/// elements that carry other variable names, substitution, differentiation, conversion).
+fn history_independence(ctx: &Ctx, st: &mut Stats) {
+    use crate::core::catch;
+    use crate::diffutil::{diff_table, gen_diff_tree, sample_point};
+    use crate::rng::Rng;
+    use crate::tree::render_plain;
+    use exmex::prelude::*;
+    use exmex::DeepEx;
+    let mut rng = Rng::new(ctx.seed, 2020);
+    let n = ctx.n(3000, 150_000);
+    for _ in 0..n {
+        let table = diff_table(&mut rng, false);
+        let tree = gen_diff_tree(&mut rng, &table, 6);
+        // leaked on purpose: deep expressions borrow their text and are invariant in that lifetime
+        let text: &'static str = Box::leak(render_plain(&tree, &table).into_boxed_str());
+        let evals = rng.range(1, 4);
+        let op = rng.below(9);
+        let pts: Vec<Vec<f64>> = (0..2).map(|_| sample_point(&mut rng, 8)).collect();
+        st.bump("cases");
+        st.bump("evaluation_history_cases");
+        st.class(("history", text.len(), op, evals));
+        let r = catch(|| -> Option<String> {
+            let fresh = DeepEx::<f64>::parse(text).ok()?;
+            let used = fresh.clone();
+            let nv = used.var_names().len();
+            for k in 0..evals {
+                let _ = used.eval(&pts[k % 2][..nv]);
+                let _ = used.eval_relaxed(&pts[(k + 1) % 2]);
+            }
+            // (compared through the Debug dump: `==` is not reflexive when a folded literal is NaN)
+            if format!("{used:?}") != format!("{fresh:?}") {
+                return Some("the Debug dump of a deep expression changed by evaluating it".into());
+            }
+            // neutral elements and an operand that bring in variables sorting before and after
+            let one = DeepEx::<f64>::parse("a0+zz").ok()?.pow(DeepEx::<f64>::zero()).ok()?;
+            let zero = (DeepEx::<f64>::parse("a0*zz").ok()? * DeepEx::<f64>::zero()).ok()?;
+            let other = DeepEx::<f64>::parse("a0-y+zz").ok()?;
+            let apply = |e: DeepEx<'static, f64>| -> exmex::ExResult<DeepEx<'static, f64>> {
+                match op {
+                    0 => e * one.clone(),
+                    1 => one.clone() * e,
+                    2 => e + zero.clone(),
+                    3 => e / one.clone(),
+                    4 => e.pow(one.clone()),
+                    5 => e.operate_binary(other.clone(), "-"),
+                    6 => e.subs(&mut |v: &str| if v == "x" { Some(other.clone()) } else { None }),
+                    7 => {
+                        if e.var_names().is_empty() {
+                            Ok(e)
+                        } else {
+                            e.partial(0)
+                        }
+                    }
+                    _ => FlatEx::<f64>::from_deepex(e).and_then(|f| f.to_deepex()),
+                }
+            };
+            let (a, b) = (apply(used), apply(fresh));
+            match (a, b) {
+                (Ok(a), Ok(b)) => {
+                    if a.var_names() != b.var_names() {
+                        return Some(format!("variables {:?} after evaluating first, {:?} without", a.var_names(), b.var_names()));
+                    }
+                    if a.unparse() != b.unparse() {
+                        return Some(format!("printed {:?} after evaluating first, {:?} without", a.unparse(), b.unparse()));
+                    }
+                    let n2 = a.var_names().len();
+                    for p in &pts {
+                        let (va, vb) = (a.eval(&p[..n2]), b.eval(&p[..n2]));
+                        let same = match (&va, &vb) {
+                            (Ok(x), Ok(y)) => x.to_bits() == y.to_bits() || (x.is_nan() && y.is_nan()),
+                            (Err(_), Err(_)) => true,
+                            _ => false,
+                        };
+                        if !same {
+                            return Some(format!("value {va:?} after evaluating the operand first, {vb:?} without, at {:?}", &p[..n2]));
+                        }
+                    }
+                    None
+                }
+                (Err(_), Err(_)) => None,
+                (a, b) => Some(format!("result {:?} after evaluating first, {:?} without", a.map(|x| x.unparse().to_string()), b.map(|x| x.unparse().to_string()))),
+            }
+        });
+        let p = match r {
+            Ok(p) => p,
+            Err(m) => Some(format!("panic: {m}")),
+        };
+        if let Some(p) = p {
+            let opname = ["e * one", "one * e", "e + zero", "e / one", "e.pow(one)", "operate_binary", "subs", "partial", "deep->flat->deep"][op];
+            st.violation(format!("history|{opname}|{text}"), text.len(), json!({"kind": "evaluation-history-dependence", "text": text, "evaluations_before": evals * 2, "then": opname, "problem": p}));
+        }
+    }
+}
+
 pub fn run(ctx: &Ctx) -> i32 {
     let mut st = Stats::new();
+    history_independence(ctx, &mut st);
     let native = ctx.verif_dir.join("target/c20w/release/c20w");
     let tsan = ctx.verif_dir.join("target/c20w_tsan/x86_64-unknown-linux-gnu/release/c20w");
     let rounds = ctx.n(40, 2000);
@@ -137,10 +235,11 @@ pub fn run(ctx: &Ctx) -> i32 {
     st.add("distinct_threads_that_won_first_use_initialisation", winners.len() as u64);
     st.sample(json!({"one_round": "16 threads behind a barrier parse 5 float + 4 value texts from a cold start, then evaluate the shared expressions 20x at per-thread points, interleaved with clone / to_deepex / from_deepex / partial / unparse", "arrival_orders_sample": orders.iter().take(3).collect::<Vec<_>>(), "first_use_winners": winners}));
     let report = Report::new(
-        "the thread workload c20w in (1) fresh native processes (16 threads released by a barrier parse the same texts from a cold start - first use of the global regexes and literal matchers - then evaluate shared Arc'd FlatEx / DeepEx / FlatExVal at per-thread points, interleaved with clone, conversions, partial, unparse; afterwards the same is done sequentially and every thread's results must be bit-identical, every parsed expression == and Debug-identical to the sequentially parsed one, the Debug dump of the shared expressions unchanged; the result digest must be identical across processes), (2) the same under ThreadSanitizer (std rebuilt with -Zbuild-std), (3) under Miri with several scheduler seeds (data races / UB; value comparisons are not judged there because Miri randomises float intrinsics and function-pointer addresses). The Send + Sync half is a compile-time assertion crate built first. distinct_nontrivial = distinct thread arrival orders observed at the first-use initialisation.",
+        "the thread workload c20w in (1) fresh native processes (16 threads released by a barrier parse the same texts from a cold start - first use of the global regexes and literal matchers - then evaluate shared Arc'd FlatEx / DeepEx / FlatExVal at per-thread points, interleaved with clone, conversions, partial, unparse; afterwards the same is done sequentially and every thread's results must be bit-identical, every parsed expression == and Debug-identical to the sequentially parsed one, the Debug dump of the shared expressions unchanged; the result digest must be identical across processes), (2) the same under ThreadSanitizer (std rebuilt with -Zbuild-std), (3) under Miri with several scheduler seeds (data races / UB; value comparisons are not judged there because Miri randomises float intrinsics and function-pointer addresses). (4) evaluation-history independence, in-process: a deep expression that was evaluated before is put through arithmetic with neutral elements carrying other variables, operate_binary, subs, partial and conversion and must give the same variables, text and bit-identical values as a never-evaluated copy. The Send + Sync half is a compile-time assertion crate built first. distinct_nontrivial = distinct thread arrival orders observed at the first-use initialisation.",
     )
     .assume("observed interleavings only; the type-level Send/Sync fact is the compiler's")
     .require("native_rounds", 20)
+    .require("evaluation_history_cases", 1000)
     .require("tsan_rounds", 3)
     .require("miri_seeds_completed", 1)
     .require("distinct_arrival_orders_observed", 5);
